@@ -10,6 +10,7 @@ from sa.model import contains, enclosing
 from sa.variants import Variant, chain, replace_once, sub_first, sub_once
 
 from .c07 import check_cache_invalidation
+from .common import must_reach_in_iteration  # noqa: E402
 from .common import call_names, enclosing_facts, is_none_fact, vars_from_call
 
 ID = "C19"
@@ -165,6 +166,31 @@ def run(ctx) -> None:
         flag = isinstance(kw.get("explicit_edges"), ast.Constant) and kw["explicit_edges"].value is True
         ok = in_explicit == flag
         rep.add("C19.R1", f"Graph._build_graph:explicit-flag@{'explicit' if in_explicit else 'inferred'}", ok, f"{bg.module.rel}:{c.lineno}", "conflict validation is told which edge mode it checks" if ok else "conflict validation is called with the wrong edge mode")
+
+    # every node kind has its name validated: the identifier check leaves nested-graph nodes out (their names may
+    # contain hyphens), so on that branch the name must reach a check of its own — with_name() re-checks nothing, and
+    # a '/' or '.' in a graph-node name breaks the path-qualified addressing (results['sub.output'], 'outer/inner')
+    vvi = db.func("graph.validation._validate_valid_identifiers")
+    vcfg_ = ctx.cfg(vvi)
+    vloops = [n for n in vcfg_.nodes if n.kind == "for"]
+    ok_gn, why_gn = False, "the name loop was not recognised"
+    if vloops and isinstance(vloops[0].ast.target, ast.Name):
+        lv = vloops[0].ast.target.id
+        gn_atoms = {src(a): True for t in vcfg_.nodes if t.kind == "test" and t.ast is not None for a in test_atoms(t.ast) if isinstance(a, ast.Call) and dotted(a.func) == "isinstance" and "GraphNode" in src(a)}
+        start_ = [t for t, l, _ in vloops[0].succ if l == "T"]
+        live_ = reachable(start_[0], both(specialize(gn_atoms, vcfg_), lambda a, b, l, i: a is not vloops[0])) if start_ and gn_atoms else set()
+        checked = False
+        for n in live_:
+            if n.kind == "test" and n.ast is not None and f"{lv}.name" in src(n.ast):
+                checked = True
+            for c in vcfg_.calls_at(n):
+                if any(src(a) == f"{lv}.name" for a in c.args):
+                    for cal in db.resolve_call(c, vvi):
+                        if cal.func is not None and any(isinstance(x, ast.Raise) for x in walk_local(cal.func.node)):
+                            checked = True
+        ok_gn = checked or not gn_atoms
+        why_gn = "a nested-graph node's name is checked on its own branch (or takes the common identifier check)" if ok_gn else "nested-graph nodes are skipped by the name validation without any check of their own: inner.as_node().with_name('a/b') enters a graph although the GraphNode constructor rejects that name"
+    rep.add("C19.R1", f"{vvi.qname}:graph-node-names-checked", ok_gn, vvi.loc(), why_gn)
 
     # ---- R2 ---------------------------------------------------------------------
     clo = db.closure([init], property_reads=True, stop=lambda f: f.module.name not in GRAPH_MODULES)
@@ -396,6 +422,22 @@ def run(ctx) -> None:
         it = lp.iter
         ok = isinstance(it, ast.Call) and (dotted(it.func) or "").split(".")[-1] == "combinations" and len(it.args) == 2 and isinstance(it.args[1], ast.Constant) and it.args[1].value == 2
         rep.add("C19.R7", f"{voc_f.qname}:pairs#{n_pairs}", ok, f"{voc_f.module.rel}:{lp.lineno}", "every unordered pair of producers is examined (combinations(sources, 2))" if ok else f"producers are examined through '{src(it)[:50]}': 'ordered' (a path in either direction) is not transitive, so two unordered producers that are not adjacent in the node list are never compared and the graph is accepted")
+        # a producer that lists the name twice pairs with itself: it is neither exclusive with nor ordered after itself
+        # (a path from a node to itself trivially exists) — under 'a == b' every path through the iteration must reject,
+        # unless duplicates within one node are rejected where the producer lists are built
+        vcfg7 = ctx.cfg(voc_f)
+        ln7 = next((n for n in vcfg7.nodes if n.kind == "for" and n.ast is lp), None)
+        same = {f"{a_.id} == {b_.id}": True, f"{b_.id} == {a_.id}": True, f"{a_.id} != {b_.id}": False, f"{b_.id} != {a_.id}": False, f"{a_.id} is {b_.id}": True}
+        raises7 = [n for n in vcfg7.nodes if n.kind == "stmt" and isinstance(n.ast, ast.Raise)]
+        self_ok = ln7 is not None and must_reach_in_iteration(vcfg7, ln7, raises7, same)
+        dedup_elsewhere = any(isinstance(x, ast.Raise) for g_ in db.funcs_in("graph.core") if g_.name == "_collect_output_sources" for x in walk_local(g_.node))
+        # ... or before the pair loops: a rejection guarded by a duplicate test on the producer list (count > 1 /
+        # len(set(..)) != len(..)) that dominates the loop
+        dom7 = dominators(vcfg7.entry)
+        dup_tests = [t for t in vcfg7.nodes if t.kind == "test" and t.ast is not None and (".count(" in src(t.ast) or ("len(set(" in src(t.ast) and "len(" in src(t.ast).replace("len(set(", "")))]
+        dup_guard_before = ln7 is not None and any(any(x.kind == "stmt" and isinstance(x.ast, ast.Raise) for x, l, _ in t.succ if l == "T") and lp.lineno > t.lineno and not contains(lp, t.ast) for t in dup_tests)
+        ok7 = self_ok or dedup_elsewhere or dup_guard_before
+        rep.add("C19.R7", f"{voc_f.qname}:self-pair-rejected#{n_pairs}", ok7, f"{voc_f.module.rel}:{lp.lineno}", "a node listed twice for one name is rejected" if ok7 else "a node that declares the same output name twice pairs with itself and passes as 'ordered' (has_path(n, n) holds trivially): node(output_name=('a', 'a')) is accepted, the graph reports outputs ('a',) and the first returned value is silently lost")
     if n_pairs < 2:
         raise AnalysisError("pair loops of validate_output_conflicts not found")
 
@@ -427,8 +469,6 @@ def run(ctx) -> None:
     rep.add("C19.R6", f"{vt.qname}:all-edges-all-values", ok, vt.loc(), "iterates every edge and every value name on it" if ok else "type validation does not iterate every value of every data edge")
     # ... and no (edge, value) pair is skipped: every iteration of the per-value loop reaches the compatibility
     # question (or a rejection), every iteration of the per-edge loop that carries values reaches the per-value loop
-    from .common import must_reach_in_iteration
-
     vcfg6 = ctx.cfg(vt)
     fors = sorted((n for n in vcfg6.nodes if n.kind == "for"), key=lambda n: n.lineno)
     askers = [n for n in vcfg6.nodes if any((dotted(c.func) or "").split(".")[-1] == "is_type_compatible" for c in vcfg6.calls_at(n))]
